@@ -180,6 +180,8 @@ impl OutputFormat for XBin {
         let height = data[o] as i32 + ((data[o + 1] as i32) << 8);
         result.set_height(height);
         result.layers[0].set_size((width, height));
+        // the buffer was created with 25 rows: rows below the picture would survive crop_loaded_file
+        result.layers[0].lines.truncate(height as usize);
         o += 2;
         let mut font_size = data[o];
         if font_size == 0 {
